@@ -558,6 +558,7 @@ def _small_negative_rows(rows, case, mass_of):
 def _drain(ctx, case, solve_for_row):
     """Turn postcondition anomalies recorded during the library call into violations."""
     an, _state['anomalies'] = _state['anomalies'], []
+    f32 = _f32_params(case)
     for a in an[:50]:
         T = _state['T']
         if a['kind'] == 'negative':
@@ -565,6 +566,9 @@ def _drain(ctx, case, solve_for_row):
             row = T.by_index.get(a['row'])
             if row is not None:
                 sol = solve_for_row(row, a['mass'], a['exposure'])
+                if sol is not None and f32 and not _f32_judgeable(sol, case, _rest(case, a['j']), f32):
+                    ctx.count('float32.unjudged_sign')    # single-precision cancellation (see _f32_judgeable)
+                    continue
                 if sol is not None:
                     c = dict(case)
                     ev = _evidence(a['value'], sol, c, scale=_state['R'].M.exp(-sol.lam * _rest(case, a['j'])))
@@ -603,7 +607,7 @@ def _forms_text(case):
              'f32': 'numpy.float32'}
     parts = ['%s=%r as %s' % (k, case[k], names.get(v, v)) for k, v in sorted(f.items())]
     if (case.get('rest_container') or 'list') != 'list':
-        parts.append('rest times in a %s' % case['rest_container'])
+        parts.append('rest times in a %s' % {'array': 'numpy array'}.get(case['rest_container'], case['rest_container']))
     return ' [%s]' % ', '.join(parts) if parts else ''
 
 
